@@ -101,18 +101,47 @@ class Ctx:
     def build(self, binaries=(), race=False):
         """Build the harness (and optionally repo binaries) from /repo's working tree."""
         if not self.built:
-            ov = {"Replace": {}}
-            for f in sorted(glob.glob(os.path.join(VERIF, "harness", "*.go"))):
-                ov["Replace"][os.path.join(REPO, HARNESS_PKG_DIR, os.path.basename(f))] = f
-            # shim files added to existing packages: harness/shims/<pkg path with __>/<file>.go
-            for f in sorted(glob.glob(os.path.join(VERIF, "harness", "shims", "*", "*.go"))):
-                pkg = os.path.basename(os.path.dirname(f)).replace("__", "/")
-                ov["Replace"][os.path.join(REPO, pkg, os.path.basename(f))] = f
-            self.overlay = os.path.join(self.work, "overlay.json")
-            with open(self.overlay, "w") as fh:
-                json.dump(ov, fh)
-            self._gobuild(["-tags", "verif", "-overlay", self.overlay, "-o", self.vh,
-                           "./" + HARNESS_PKG_DIR])
+            files = sorted(glob.glob(os.path.join(VERIF, "harness", "*.go")))
+            # Files of other families that do not compile right now (work in progress by
+            # someone else) are left out rather than failing this check; files this plan
+            # needs (main.go, fam_<x>.go whose family name appears in props/<ID>.py) never are.
+            plan = ""
+            pp = os.path.join(VERIF, "props", self.prop + ".py")
+            if os.path.exists(pp):
+                plan = open(pp).read()
+            def needed(f):
+                b = os.path.basename(f)
+                if not b.startswith("fam_"):
+                    return True
+                name = b[4:-3]
+                return ('"%s"' % name) in plan or ("'%s'" % name) in plan or not plan
+            excluded = []
+            for attempt in range(8):
+                ov = {"Replace": {}}
+                for f in files:
+                    if f in excluded:
+                        continue
+                    ov["Replace"][os.path.join(REPO, HARNESS_PKG_DIR, os.path.basename(f))] = f
+                # shim files added to existing packages: harness/shims/<pkg path with __>/<file>.go
+                for f in sorted(glob.glob(os.path.join(VERIF, "harness", "shims", "*", "*.go"))):
+                    pkg = os.path.basename(os.path.dirname(f)).replace("__", "/")
+                    ov["Replace"][os.path.join(REPO, pkg, os.path.basename(f))] = f
+                self.overlay = os.path.join(self.work, "overlay.json")
+                with open(self.overlay, "w") as fh:
+                    json.dump(ov, fh)
+                try:
+                    self._gobuild(["-tags", "verif", "-overlay", self.overlay, "-o", self.vh,
+                                   "./" + HARNESS_PKG_DIR])
+                    break
+                except Infra as e:
+                    bad = set(re.findall(r"harness/([\w.]+\.go):", str(e)))
+                    drop = [f for f in files if os.path.basename(f) in bad and not needed(f) and f not in excluded]
+                    if not drop:
+                        raise
+                    log("harness build: leaving out %s (does not compile at the moment)" % [os.path.basename(f) for f in drop])
+                    excluded += drop
+            else:
+                raise Infra("harness does not build")
             self.built = True
         out = {}
         for b in binaries:
